@@ -48,11 +48,17 @@ def gen_case(rng, ctx, kind=None):
     keys = key_family(rng, int(rng.integers(2, 10)), 0, 10)
     n_ev = int(rng.integers(5, 50))
     events = []
+    n_self = 0
     for _ in range(n_ev):
         r = rng.random()
         if r < 0.1:
             a = int(rng.integers(0, 2))
             events.append(["merge", a, 1 - a])
+        elif r < 0.13:
+            events.append(["copy", int(rng.integers(0, 2)), pick(rng, ["deepcopy", "pickle", "copy"])])
+        elif r < 0.14 and n_self < 2:
+            n_self += 1
+            events.append(["selfmerge", int(rng.integers(0, 2)), pick(rng, [23, 30, 54, 66])])
         else:
             k = keys[int(rng.integers(0, len(keys)))]
             if kind == "linear":
@@ -91,6 +97,15 @@ def run_case(case, ctx, mon):
         if ev[0] == "merge":
             mon.api(real[ev[1]].merge, real[ev[2]])
             mon.count("merges")
+            continue
+        if ev[0] == "copy":
+            real[ev[1]] = mon.api(state.duplicate, real[ev[1]], ev[2])
+            mon.count("copies:" + ev[2])
+            continue
+        if ev[0] == "selfmerge":
+            for _ in range(ev[2]):
+                real[ev[1]].merge(real[ev[1]])  # doubles n_added(): a few dozen of these take it past 2^53 and 2^64
+            mon.count("self_merge_runs")
             continue
         i, op = ev
         key, v = unhx(op[1]), int(op[2])
